@@ -9,6 +9,7 @@ from __future__ import annotations
 
 import base64
 import copy
+import gc
 import io
 import json
 import os
@@ -771,6 +772,8 @@ def run_cli(rec, *, userinfo: bool, auth_route: str, sanitize: bool, configure=N
         for t in threading.enumerate():
             if t.name == "SchemathesisCassetteWriter":
                 t.join(5)
+        del res
+        gc.collect()  # the report files are click LazyFiles nobody closes: flushed when collected, as at interpreter exit
         for name in ("junit.xml", "vcr.yaml", "har.json"):
             p = os.path.join(td, name)
             out[name] = open(p, encoding="utf8").read() if os.path.exists(p) else ""
@@ -794,7 +797,7 @@ def split_regions(arte):
     parts["vcr.yaml"] = rest if first.startswith("command:") else vcr
     loading, other = [], []
     for line in arte.get("console", "").splitlines():
-        (loading if "specification from" in line else other).append(line)
+        (loading if "specification from" in line or "Base URL:" in line else other).append(line)
     parts["console:location"] = "\n".join(loading)
     parts["console"] = "\n".join(other)
     parts["junit.xml"] = arte.get("junit.xml", "")
@@ -827,7 +830,7 @@ def stage_cli_search(chk, scenarios):
                 chk.disagree("st run did not produce the artefacts the search needs (failure with code sample, junit, cassette)", case,
                              {"exit": arte.get("_exit"), "console_tail": arte.get("console", "")[-800:]}, None)
                 continue
-            har_ok = '"entries"' in parts["har.json"] and PLAIN["cli_plain_header"] in parts["har.json"]
+            har_ok = '"entries"' in parts["har.json"] and '"X-Plain"' in parts["har.json"]
             if not har_ok:
                 if sc["userinfo"] and sc["sanitize"]:
                     stats["har_writer_crashed_on_sanitised_userinfo"] += 1  # urlparse rejects http://[Filtered]@host - no output, no leak
